@@ -229,7 +229,7 @@ class Ctx:
             raise RuntimeError("model driver failed: " + p.stderr.decode()[-1000:])
         return p.stdout.decode("utf-8").splitlines()
 
-    def correspond(self, outdir, nontrivial_tag=None, what_prefix=""):
+    def correspond(self, outdir, nontrivial_tag=None, what_prefix="", ignore_spec=None):
         """Compare the implementation's outputs with the model's and judge them by the spec."""
         cases_path = os.path.join(outdir, "cases.tsv")
         cases = open(cases_path, encoding="utf-8").read().splitlines()
@@ -252,6 +252,8 @@ class Ctx:
                 self.samples.append({"cmd": cmd, "input": inp[:400], "implementation": impl[:300], "tags": tagl})
             if model_out.startswith("MALFORMED-REQUEST"):
                 raise RuntimeError(f"model could not read case {i}: {model_out}: {c[:300]}")
+            if spec.startswith("BAD") and ignore_spec and ignore_spec(spec[4:]):
+                spec = "ok"   # this specification clause belongs to another property
             if spec.startswith("BAD"):
                 self.impl_vs_spec_failures += 1
                 self.violation(f"{what_prefix}implementation violates the specification: {cmd}: {spec[4:][:300]}",
